@@ -91,10 +91,17 @@ theorem sendFrame_spec {s s' : Stream} {k iv dg c data flag f}
 def Known (k : Nat) (iv : IV) (dg : Digest × Digest) (c0 : Nat) (items : List Item) (s : Sealed) : Prop :=
   ∃ j it, items[j]? = some it ∧ s = sealedAt k iv dg (c0 + j) it
 
-def AdvFrame (k : Nat) (iv : IV) (dg : Digest × Digest) (c0 : Nat) (items : List Item) (g : WireFrame) : Prop :=
+/-- A seal under the session key that did NOT come from this sender — in a two-party session:
+    one of the receiver's own outgoing frames, reflected back at it. It carries a nonce of the
+    other direction (never one of the sender's `iv.nonce a`) and, if it is a first frame, the digest
+    pair in the *receiver's* send order `rdg' ≠ rdg` (what the receiver expects from its peer). -/
+def Foreign (iv : IV) (rdg : Digest × Digest) (c : Sealed) : Prop :=
+  (∀ a, c.nonce ≠ iv.nonce a) ∧ c.aad.digests ≠ some rdg
+
+def AdvFrame (k : Nat) (iv : IV) (dg rdg : Digest × Digest) (c0 : Nat) (items : List Item) (g : WireFrame) : Prop :=
   match g.body with
   | .raw _ => True
-  | .ct ivo c => (∀ i, ivo = some i → i.w0 < 2^32) ∧ (c.key = k → Known k iv dg c0 items c)
+  | .ct ivo c => (∀ i, ivo = some i → i.w0 < 2^32) ∧ (c.key = k → Known k iv dg c0 items c ∨ Foreign iv rdg c)
 
 /-- Receiver-side invariant: `m` honest frames accepted so far. -/
 structure RecvInv (r : Stream) (k : Nat) (iv : IV) (c0 m : Nat) : Prop where
@@ -119,9 +126,10 @@ theorem nonce_inj {iv : IV} {a b : Nat} (ha : a < 2^32) (hb : b < 2^32)
 
 /-- The crux at the `decryptDataWithAAD` level: whatever body the adversary presents, if it
     opens then it is the next honest seal, and the base IV is the sender's. -/
-theorem open_only_next {r : Stream} {k iv dg c0 m items g ivr p}
+theorem open_only_next {r : Stream} {k iv dg rdg c0 m items g ivr p}
     (hiv : iv.w0 < 2^32) (hlim : c0 + items.length ≤ counterLimit) (hm : m ≤ items.length)
-    (hr : RecvInv r k iv c0 m) (hg : AdvFrame k iv dg c0 items g)
+    (hr : RecvInv r k iv c0 m) (hdg : c0 + m = 0 → (r.dig.fr, r.dig.fs) = rdg)
+    (hg : AdvFrame k iv dg rdg c0 items g)
     (h : r.openBody k g = .ok (ivr, p)) :
     ∃ it, items[m]? = some it ∧ g.flag = it.flag ∧ p = it.plain ∧ ivr = iv := by
   obtain ⟨hk, he, hc, hf, hdiv⟩ := hr
@@ -147,7 +155,11 @@ theorem open_only_next {r : Stream} {k iv dg c0 m items g ivr p}
             obtain ⟨hcond, hab⟩ := ite_ok h
             · obtain ⟨hck, hcn, hca⟩ := hcond
               obtain ⟨hiw, hkn⟩ := hg
-              obtain ⟨j, it, hj, hcs⟩ := hkn hck
+              have hnf : ¬ Foreign iv rdg c := by
+                intro hf
+                apply hf.2
+                rw [hca, ← hdg hz]
+              obtain ⟨j, it, hj, hcs⟩ := (hkn hck).resolve_right hnf
               have hi := hiw i rfl
               -- the AAD carries digests, so the seal is the sender's first one
               have hj0 : c0 + j = 0 := by
@@ -191,7 +203,11 @@ theorem open_only_next {r : Stream} {k iv dg c0 m items g ivr p}
             obtain ⟨hcond, hab⟩ := ite_ok h
             · obtain ⟨hck, hcn, hca⟩ := hcond
               obtain ⟨_, hkn⟩ := hg
-              obtain ⟨j, it, hj, hcs⟩ := hkn hck
+              have hnf : ¬ Foreign iv rdg c := by
+                intro hf
+                apply hf.1 r.decCtr
+                rw [hcn, hdi]
+              obtain ⟨j, it, hj, hcs⟩ := (hkn hck).resolve_right hnf
               have hjl : j < items.length := (List.getElem?_eq_some_iff.mp hj).1
               have hjm : c0 + j = c0 + m := by
                 rw [hcs, hdi, hc] at hcn
@@ -216,9 +232,10 @@ theorem afterOpen_recvInv {r : Stream} {k iv c0 m} (hr : RecvInv r k iv c0 m) (b
 
 /-- Frame-level statement: if `ReceiveFrameWithEnd` accepts, it accepted the next honest frame —
     same end flag, same plaintext — and the receiver stays in step. Empty frames included. -/
-theorem recv_accepts_only_next {r r' : Stream} {k iv dg c0 m items g d fl}
+theorem recv_accepts_only_next {r r' : Stream} {k iv dg rdg c0 m items g d fl}
     (hiv : iv.w0 < 2^32) (hlim : c0 + items.length ≤ counterLimit) (hm : m ≤ items.length)
-    (hr : RecvInv r k iv c0 m) (hg : AdvFrame k iv dg c0 items g)
+    (hr : RecvInv r k iv c0 m) (hdg : c0 + m = 0 → (r.dig.fr, r.dig.fs) = rdg)
+    (hg : AdvFrame k iv dg rdg c0 items g)
     (h : r.recvFrameWithEnd g = .ok (r', d, fl)) :
     ∃ it, items[m]? = some it ∧ fl = it.flag ∧ d = it.plain ∧ RecvInv r' k iv c0 (m + 1) := by
   have hk := hr.key
@@ -234,7 +251,7 @@ theorem recv_accepts_only_next {r r' : Stream} {k iv dg c0 m items g d fl}
       · rename_i ivr p hopen
         simp only [Except.ok.injEq, Prod.mk.injEq] at h
         obtain ⟨rfl, rfl, rfl⟩ := h
-        obtain ⟨it, hit, hfl, hp, hivr⟩ := open_only_next hiv hlim hm hr hg hopen
+        obtain ⟨it, hit, hfl, hp, hivr⟩ := open_only_next hiv hlim hm hr hdg hg hopen
         subst hivr
         exact ⟨it, hit, hfl, hp, afterOpen_recvInv hr _⟩
 
@@ -245,24 +262,25 @@ def Item.op (it : Item) : SendOp := (it.plain, it.flag)
 
 /-- `ReceiveCompleteMessage` under attack: if it returns a message, the receiver consumed a run
     of consecutive honest frames ending in a complete one, and the message is their concatenation. -/
-theorem recvComplete_spec {k iv dg c0 items}
+theorem recvComplete_spec {k iv dg rdg c0 items}
     (hiv : iv.w0 < 2^32) (hlim : c0 + items.length ≤ counterLimit) :
     ∀ (w : List WireFrame) (r : Stream) (m : Nat) (acc : Bytes) r' msg w',
-      m ≤ items.length → RecvInv r k iv c0 m → (∀ g ∈ w, AdvFrame k iv dg c0 items g) →
+      m ≤ items.length → RecvInv r k iv c0 m → (c0 + m = 0 → (r.dig.fr, r.dig.fs) = rdg) →
+      (∀ g ∈ w, AdvFrame k iv dg rdg c0 items g) →
       r.recvCompleteAux acc w = .ok (r', msg, w') →
-      ∃ m', m < m' ∧ m' ≤ items.length ∧ RecvInv r' k iv c0 m' ∧ (∀ g ∈ w', AdvFrame k iv dg c0 items g) ∧
+      ∃ m', m < m' ∧ m' ≤ items.length ∧ RecvInv r' k iv c0 m' ∧ (∀ g ∈ w', AdvFrame k iv dg rdg c0 items g) ∧
         messagesOf acc ((items.drop m).map Item.op) = msg :: messagesOf [] ((items.drop m').map Item.op) := by
   intro w
   induction w with
-  | nil => intro r m acc r' msg w' _ _ _ h; simp [Stream.recvCompleteAux] at h
+  | nil => intro r m acc r' msg w' _ _ _ _ h; simp [Stream.recvCompleteAux] at h
   | cons g w ih =>
-    intro r m acc r' msg w' hm hr hadv h
+    intro r m acc r' msg w' hm hr hdg hadv h
     unfold Stream.recvCompleteAux at h
     split at h
     · cases h
     · rename_i s1 d fl hrecv
       obtain ⟨it, hit, hfl, hd, hr1⟩ :=
-        recv_accepts_only_next hiv hlim hm hr (hadv g (List.mem_cons_self ..)) hrecv
+        recv_accepts_only_next hiv hlim hm hr hdg (hadv g (List.mem_cons_self ..)) hrecv
       have hml : m < items.length := (List.getElem?_eq_some_iff.mp hit).1
       have hdrop : items.drop m = it :: items.drop (m + 1) := by
         rw [List.drop_eq_getElem_cons hml]
@@ -279,7 +297,7 @@ theorem recvComplete_spec {k iv dg c0 items}
         by_cases h0 : fl = 0
         · rw [if_pos h0] at h
           obtain ⟨m', hm1, hm2, hr', hadv', hmsg⟩ :=
-            ih s1 (m + 1) (acc ++ d) r' msg w' (by omega) hr1
+            ih s1 (m + 1) (acc ++ d) r' msg w' (by omega) hr1 (fun h => by omega)
               (fun g hg => hadv g (List.mem_cons_of_mem _ hg)) h
           refine ⟨m', by omega, hm2, hr', hadv', ?_⟩
           rw [hdrop]
@@ -289,24 +307,25 @@ theorem recvComplete_spec {k iv dg c0 items}
         · rw [if_neg h0] at h; cases h
 
 /-- The receive loop hands the application only a prefix of the messages that were sent. -/
-theorem deliver_prefix {k iv dg c0 items}
+theorem deliver_prefix {k iv dg rdg c0 items}
     (hiv : iv.w0 < 2^32) (hlim : c0 + items.length ≤ counterLimit) :
     ∀ (n : Nat) (r : Stream) (w : List WireFrame) (m : Nat),
-      m ≤ items.length → RecvInv r k iv c0 m → (∀ g ∈ w, AdvFrame k iv dg c0 items g) →
+      m ≤ items.length → RecvInv r k iv c0 m → (c0 + m = 0 → (r.dig.fr, r.dig.fs) = rdg) →
+      (∀ g ∈ w, AdvFrame k iv dg rdg c0 items g) →
       Stream.deliverFuel n r w <+: messagesOf [] ((items.drop m).map Item.op) := by
   intro n
   induction n with
-  | zero => intro r w m _ _ _; simp [Stream.deliverFuel]
+  | zero => intro r w m _ _ _ _; simp [Stream.deliverFuel]
   | succ n ih =>
-    intro r w m hm hr hadv
+    intro r w m hm hr hdg hadv
     unfold Stream.deliverFuel
     split
     · simp
     · rename_i r' msg w' hrc
       obtain ⟨m', hm1, hm2, hr', hadv', hmsg⟩ :=
-        recvComplete_spec hiv hlim w r m [] r' msg w' hm hr hadv hrc
+        recvComplete_spec hiv hlim w r m [] r' msg w' hm hr hdg hadv hrc
       rw [hmsg]
-      exact List.prefix_cons_inj msg |>.mpr (ih r' w' m' hm2 hr' hadv')
+      exact List.prefix_cons_inj msg |>.mpr (ih r' w' m' hm2 hr' (fun h => by omega) hadv')
 
 /-! ### What an honest sender emits -/
 
